@@ -476,15 +476,130 @@ def m_int_arith(ex, st, args, dty, canon):
     return sym_enum(b2d(fits, 1, 0), {1: [Sc(r, ty)], 0: []}, 'Option')
 
 
+INTS = r'(i|u)(8|16|32|64|128|size)'
+
+
+@pattern(r'^core::num::<impl %s>::(saturating_mul|wrapping_mul|checked_div|checked_rem|checked_neg_never|abs|unsigned_abs|abs_diff|signum|is_negative|is_positive|pow|checked_pow|saturating_pow|overflowing_add|overflowing_sub|overflowing_mul|rem_euclid|div_euclid)$' % INTS)
+def m_int_arith2(ex, st, args, dty, canon):
+    m = re.search(r'<impl (\w+)>::(\w+)$', canon[4])
+    ty, op = m.group(1), m.group(2)
+    lo, hi = int_range(ty)
+    x = args[0].t
+    y = args[1].t if len(args) > 1 else None
+
+    def sat(r):
+        return z3.If(r > hi, hi, z3.If(r < lo, lo, r))
+
+    def opt(fits, r):
+        return sym_enum(b2d(fits, 1, 0), {1: [Sc(r, ty)], 0: []}, 'Option')
+    if op == 'saturating_mul':
+        return Sc(sat(x * y), ty)
+    if op == 'wrapping_mul':
+        return Sc(ex.wrap(x * y, ty), ty)
+    if op in ('checked_div', 'checked_rem', 'div_euclid', 'rem_euclid'):
+        # Rust truncates towards zero; z3 Int division floors for positive divisors: go through magnitudes
+        ax, ay = z3.If(x >= 0, x, -x), z3.If(y >= 0, y, -y)
+        q0, r0 = ex.idiv(ax, ay), ex.imod(ax, ay)
+        q = z3.If((x >= 0) == (y >= 0), q0, -q0)
+        r = z3.If(x >= 0, r0, -r0)
+        if op == 'checked_div':
+            return opt(z3.And(y != 0, q >= lo, q <= hi), q)
+        if op == 'checked_rem':
+            return opt(z3.And(y != 0, z3.Not(z3.And(x == lo, y == -1)) if lo < 0 else z3.BoolVal(True)), r)
+        re_ = z3.If(r < 0, r + ay, r)
+        if op == 'rem_euclid':
+            return Sc(re_, ty)
+        return Sc(z3.If(r < 0, z3.If(y > 0, q - 1, q + 1), q), ty)
+    if op == 'abs':
+        return Sc(z3.If(x >= 0, x, -x), ty)       # overflow on MIN panics in debug; outside (checked by callers)
+    if op == 'unsigned_abs':
+        return Sc(z3.If(x >= 0, x, -x), 'u' + ty[1:])
+    if op == 'abs_diff':
+        return Sc(z3.If(x >= y, x - y, y - x), 'u' + ty[1:] if ty[0] == 'i' else ty)
+    if op == 'signum':
+        return Sc(z3.If(x > 0, I(1), z3.If(x < 0, I(-1), I(0))), ty)
+    if op == 'is_negative':
+        return Sc(x < 0, 'bool')
+    if op == 'is_positive':
+        return Sc(x > 0, 'bool')
+    if op in ('pow', 'checked_pow', 'saturating_pow'):
+        e = z3.simplify(y)
+        if not z3.is_int_value(e) or e.as_long() > 64:
+            raise Inconclusive('%s with a symbolic exponent' % op)
+        r = I(1)
+        for _ in range(e.as_long()):
+            r = r * x
+        if op == 'pow':
+            return Sc(r, ty)
+        if op == 'saturating_pow':
+            return Sc(sat(r), ty)
+        return opt(z3.And(r >= lo, r <= hi), r)
+    if op.startswith('overflowing_'):
+        r = x + y if op.endswith('add') else x - y if op.endswith('sub') else x * y
+        return Tree({0: Sc(ex.wrap(r, ty), ty), 1: Sc(z3.Or(r < lo, r > hi), 'bool')}, None, None)
+    raise Inconclusive('integer method %s' % op)
+
+
+@pattern(r'^<%s as Ord>::(min|max|clamp)$|^<%s as Ord>::(min|max|clamp)$' % (INTS, r'(std::time::)?Duration'))
+def m_ord_minmax(ex, st, args, dty, canon):
+    op = canon[3]
+    if 'Duration' in canon[4]:
+        ts = [dur_total_nanos(ex, st, a) for a in args]
+        if op == 'min':
+            r = z3.If(ts[0] <= ts[1], ts[0], ts[1])
+        elif op == 'max':
+            r = z3.If(ts[1] >= ts[0], ts[1], ts[0])
+        else:
+            r = z3.If(ts[0] < ts[1], ts[1], z3.If(ts[0] > ts[2], ts[2], ts[0]))
+        return dur_from_total_nanos(r, ex)
+    a = args[0]
+    if op == 'min':
+        return Sc(z3.If(a.t <= args[1].t, a.t, args[1].t), a.ty)
+    if op == 'max':
+        return Sc(z3.If(args[1].t >= a.t, args[1].t, a.t), a.ty)
+    return Sc(z3.If(a.t < args[1].t, args[1].t, z3.If(a.t > args[2].t, args[2].t, a.t)), a.ty)
+
+
+@pattern(r'^<%s as Ord>::cmp$|^<%s as PartialOrd>::partial_cmp$' % (INTS, INTS))
+def m_int_cmp(ex, st, args, dty, canon):
+    a, b = deref_all(ex, st, args[0]), deref_all(ex, st, args[1])
+    # Ordering: Less = -1, Equal = 0, Greater = 1
+    d = z3.If(a.t < b.t, I(-1), z3.If(a.t == b.t, I(0), I(1)))
+    o = Tree({'discr': Sc(d, 'i8')}, None, 'std::cmp::Ordering')
+    return some(o) if canon[3] == 'partial_cmp' else o
+
+
+@pattern(r'^(std::time::)?Duration::(saturating_sub|saturating_add|is_zero|as_secs_f64_never|subsec_millis|subsec_micros)$')
+def m_dur_more(ex, st, args, dty, canon):
+    op = canon[3]
+    a = dur_total_nanos(ex, st, args[0])
+    if op == 'is_zero':
+        return Sc(a == 0, 'bool')
+    if op in ('subsec_millis', 'subsec_micros'):
+        s_, n_ = dur_parts(ex, st, args[0])
+        return Sc(ex.idiv(n_, 1000000 if op == 'subsec_millis' else 1000), 'u32')
+    b = dur_total_nanos(ex, st, args[1])
+    if op == 'saturating_sub':
+        return dur_from_total_nanos(z3.If(a >= b, a - b, I(0)), ex)
+    mx = ((1 << 64) - 1) * NANOS + (NANOS - 1)
+    return dur_from_total_nanos(z3.If(a + b > mx, I(mx), a + b), ex)
+
+
 @model('std::cmp::min', 'min', 'cmp::min', '<u64 as Ord>::min')
 def m_min(ex, st, args, dty, canon):
     a, b = args
+    if not (isinstance(a, Sc) and isinstance(b, Sc)):
+        ta, tb = dur_total_nanos(ex, st, a), dur_total_nanos(ex, st, b)
+        return dur_from_total_nanos(z3.If(ta <= tb, ta, tb), ex)
     return Sc(z3.If(a.t <= b.t, a.t, b.t), a.ty)
 
 
 @model('std::cmp::max', 'max', 'cmp::max', '<u64 as Ord>::max')
 def m_max(ex, st, args, dty, canon):
     a, b = args
+    if not (isinstance(a, Sc) and isinstance(b, Sc)):
+        ta, tb = dur_total_nanos(ex, st, a), dur_total_nanos(ex, st, b)
+        return dur_from_total_nanos(z3.If(tb >= ta, tb, ta), ex)
     return Sc(z3.If(a.t >= b.t, a.t, b.t), a.ty)
 
 
